@@ -17,11 +17,11 @@ def tlaset(xs):
     return "{" + ", ".join('"%s"' % x for x in xs) + "}"
 
 
-def write_cfg(sd, name, maxops, maxconns, emit, simdepth=0, invariants=(), constraints=(), view=True, skis=("r1", "r2")):
+def write_cfg(sd, name, maxops, maxconns, emit, simdepth=0, invariants=(), constraints=(), view=True, skis=("r1", "r2"), genmode="full"):
     with open(os.path.join(sd, name + ".cfg"), "w") as f:
-        f.write("SPECIFICATION Spec\nCONSTANTS Skis = %s\n MaxConns = %d\n Defects = %s\n GenMode = \"full\"\n EmitMode = \"%s\"\n"
+        f.write("SPECIFICATION Spec\nCONSTANTS Skis = %s\n MaxConns = %d\n Defects = %s\n GenMode = \"%s\"\n EmitMode = \"%s\"\n"
                 " SimDepth = %d\n MaxOps = %d\n Spellings = {\"canon\", \"other\"}\n%s%s%sCHECK_DEADLOCK FALSE\n"
-                % (tlaset(skis), maxconns, tlaset(DEFECTS), emit, simdepth, maxops, "VIEW View\n" if view else "",
+                % (tlaset(skis), maxconns, tlaset(DEFECTS), genmode, emit, simdepth, maxops, "VIEW View\n" if view else "",
                    "".join("INVARIANT %s\n" % i for i in invariants), "".join("ACTION_CONSTRAINT %s\n" % c for c in constraints)))
 
 
@@ -81,6 +81,11 @@ def collect(prop, tier):
         write_cfg(sd, "HubApi_S", 40, 3, "final", simdepth=14, constraints=["EmitFinal"], view=False)
         sims, _ = gen(sd, "HubApi_S", simulate="num=%d" % (400 if q else 6000), depth=14, tlc_seed=seed)
         tests += sims
+        # connection events only: several services whose connections report states side by side (no user operation in between)
+        write_cfg(sd, "HubApi_SC", 40, 3, "final", simdepth=9, constraints=["EmitFinal"], view=False, genmode="conns")
+        simc, _ = gen(sd, "HubApi_SC", simulate="num=%d" % (300 if q else 3000), depth=9, tlc_seed=seed + 3)
+        tests += simc
+        sims = sims + simc
         for i, t in enumerate(tests):
             t["id"] = i
         tp = os.path.join(sc, "tests.ndjson")
